@@ -192,6 +192,24 @@ def run(ctx: Ctx):
                     if run.get(f"inn/{key}/has") != 1.0:
                         ctx.violation(f"generated C++ filter: the innovation of a discarded reading of sensor {key!r} is not recorded",
                                       {"definition": job["defn"], "inputs": pt, "sensor": key, "k": job["k"]}, key="cpp-discard-not-recorded")
+    # ---------------- the threshold set through the scikit-learn adapter (set_params with several keys at once, then the
+    # exported filter decides): configured k, or the disabled setting, must be the one the filter uses
+    ajobs = []
+    for k, z in ((None, 30.0), (2.0, 3.2), (8.0, 4.0), (0.5, 2.5), (None, 1.0), (3.0, 6.0)):
+        for extra in ({"max_dt_sec": 0.05}, {"common_subexpression_elimination": False, "max_dt_sec": 0.05}, {}):
+            ajobs.append({"kind": "set_then_decide", "sets": dict({"innovation_filtering": k}, **extra), "z": z})
+    ares = ctx.run_impl_jobs("adapter_py.py", ajobs, shards=4)
+    for j, r in zip(ajobs, ares):
+        k, z = j["sets"]["innovation_filtering"], j["z"]
+        nis = z * z / 2.0           # P = 1, R = 1, H = 1: S = 2
+        want = False if k is None else nis > k * math.sqrt(2.0) + 1.0
+        if "error" in r:
+            ctx.violation(f"adapter set_params / export_python raised: {r['kind']}", {"sets": j["sets"], "error": r["error"]}, key="adapter-raises")
+        elif r["exported_k"] != k or r["discarded"] != want:
+            ctx.violation(f"set_params({j['sets']}) then export_python(): the exported filter uses innovation_filtering={r['exported_k']!r} and "
+                          f"{'discards' if r['discarded'] else 'uses'} a reading with NIS {nis!r}; configured {k!r} ({'discard' if want else 'use'} expected)",
+                          {"sets": j["sets"], "reading": z, "observed": r}, key="adapter-threshold-lost")
+    dist["adapter_threshold_cases"] = len(ajobs)
     dist["cpp_whole_filter_jobs"] = len(cjobs)
     dist["cpp_rejected_updates"] = n_cpp_rej
     ctx.cov["input_distribution"] = {"decision_cases": kinds, "whole_filter_updates": dist["updates"], "whole_filter_rejected": n_rej,
